@@ -497,8 +497,9 @@ fn fleet_aged(n: usize, mixed_ages: bool) -> std::collections::BTreeMap<String, 
                 timestamp: now as f64 - 100.0 + k as f64,
                 frame: vec![],
                 message: Some(m.clone()),
-                metadata: vec![SensorMetadata { system_timestamp: now as f64, gnss_timestamp: None, nanoseconds: None, rssi: None, serial: 1, name: Some("toulouse".to_string()) }],
+                metadata: vec![SensorMetadata { system_timestamp: now as f64, gnss_timestamp: None, nanoseconds: None, rssi: None, serial: 1, name: Some("toulouse".to_string()), ..Default::default() }],
                 decode_time: None,
+                ..Default::default()
             };
             futures::executor::block_on(crate::snapshot::update_snapshot(&app, &mut tm, &db));
         }
@@ -857,8 +858,8 @@ fn fleet_hetero(n: usize) -> std::collections::BTreeMap<String, StateVectors> {
             if let Ok(m) = rs1090::decode::Message::try_from(f.as_slice()) {
                 // (every record that reaches the table in jet1090 carries the metadata of its reception: the REFERENCE
                 // column relies on it)
-                let metadata = vec![SensorMetadata { system_timestamp: now as f64, gnss_timestamp: None, nanoseconds: None, rssi: None, serial: 1 + (i % 3) as u64, name: if i % 3 == 0 { None } else { Some(format!("rx{}", i % 3)) } }];
-                let mut tm = rs1090::decode::TimedMessage { timestamp: now as f64 - 10.0 + k as f64, frame: vec![], message: Some(m), metadata, decode_time: None };
+                let metadata = vec![SensorMetadata { system_timestamp: now as f64, gnss_timestamp: None, nanoseconds: None, rssi: None, serial: 1 + (i % 3) as u64, name: if i % 3 == 0 { None } else { Some(format!("rx{}", i % 3)) }, ..Default::default() }];
+                let mut tm = rs1090::decode::TimedMessage { timestamp: now as f64 - 10.0 + k as f64, frame: vec![], message: Some(m), metadata, decode_time: None, ..Default::default() };
                 futures::executor::block_on(crate::snapshot::update_snapshot(&app, &mut tm, &db));
             }
         }
